@@ -1,5 +1,5 @@
 \* EXPECTED to be refuted: two concurrent runs hand out the same IDs
-CONSTANTS Procs = {"A", "B"}  Files = {"f1", "f2"}  StartLock = 5
+CONSTANTS Procs = {"A", "B"}  Files = {"f1", "f2"}  StartLock = 5  Discipline = "none"
 SPECIFICATION Spec
 INVARIANT GlobalUnique
 CHECK_DEADLOCK FALSE
